@@ -817,7 +817,7 @@ static void copy_struct_mem(void) {
 static void builtin_alloca(void) {
   // Align size to 16 bytes.
   println("  add $15, %%rdi");
-  println("  and $0xfffffff0, %%edi");
+  println("  and $-16, %%rdi");
 
   // Shift the temporary area by %rdi.
   println("  mov %d(%%rbp), %%rcx", current_fn->alloca_bottom->offset);
